@@ -61,6 +61,9 @@ def requests ():
   a(("port-mod-absent", lambda x: W.port_mod(x, 99, MAC1(1, 1), 0, 0), ("error", W.OFPET_PORT_MOD_FAILED, W.OFPPMFC_BAD_PORT)))
   a(("port-mod-bad-hw", lambda x: W.port_mod(x, 1, b"\x02\xaa\xaa\xaa\xaa\xaa", 0, 0), ("error", W.OFPET_PORT_MOD_FAILED, W.OFPPMFC_BAD_HW_ADDR)))
   a(("packet-out", lambda x: W.packet_out(x, W.a_output(2), FRAME, in_port=1), ("none",)))
+  a(("packet-out-table-1", lambda x: W.packet_out(x, W.a_output(W.OFPP_TABLE), FRAME, in_port=1), ("none",)))
+  a(("packet-out-table-3", lambda x: W.packet_out(x, W.a_output(W.OFPP_TABLE), FRAME, in_port=3), ("none",)))
+  a(("port-mod-no-packet-in-3", lambda x: W.port_mod(x, 3, MAC1(1, 3), W.OFPPC_NO_PACKET_IN, W.OFPPC_NO_PACKET_IN), ("none",)))
   a(("packet-out-controller", lambda x: W.packet_out(x, W.a_output(W.OFPP_CONTROLLER), FRAME, in_port=1), ("none",)))
   a(("packet-out-bad-buffer", lambda x: W.packet_out(x, W.a_output(2), b"", buffer_id=77, in_port=1), ("error", W.OFPET_BAD_REQUEST, W.OFPBRC_BUFFER_UNKNOWN)))
   a(("packet-out-bad-action", lambda x: W.packet_out(x, W.a_raw(0x55), FRAME, in_port=1), ("error", W.OFPET_BAD_ACTION, W.OFPBAC_BAD_TYPE)))
@@ -78,6 +81,7 @@ class Model (object):
     self.flows = set()
     self.out2 = False           # does flow "in1" currently output to port 2?
     self.tx = {1: 0, 2: 0, 3: 0, 4: 0}
+    self.lookups = 0; self.matched = 0          # table counters (packets submitted to the table)
   def apply (self, name):
     if name == "set-config-64": self.miss_send_len, self.flags = 64, 0
     elif name == "set-config-0": self.miss_send_len, self.flags = 0, 0
@@ -88,6 +92,13 @@ class Model (object):
     elif name == "flow-add-other": self.flows.add("in2")
     elif name == "flow-delete-all": self.flows.clear()
     elif name == "packet-out": self.tx[2] += 1
+    elif name == "packet-out-table-1":
+      self.lookups += 1
+      if "in1" in self.flows:
+        self.matched += 1
+        self.tx[2 if self.out2 else 3] += 1
+    elif name == "packet-out-table-3":
+      self.lookups += 1
 
 
 def check_history (names, reqs, rep, stack_factory, batch=False):
@@ -198,6 +209,9 @@ def check_body (n, r, raw, model, st):
   elif n == "stats-table":
     if not r["wellformed"] or len(r["tables"]) != 1 or r["tables"][0]["active_count"] != len(model.flows):
       b("stats-body", "table stats %r, expected one table with active_count %d" % (r.get("tables"), len(model.flows)))
+    elif (r["tables"][0]["lookup_count"], r["tables"][0]["matched_count"]) != (model.lookups, model.matched):
+      b("stats-body:lookup-counters", "table stats lookup/matched counts %r, %d packets were submitted to the table and %d matched"
+        % ((r["tables"][0]["lookup_count"], r["tables"][0]["matched_count"]), model.lookups, model.matched))
   elif n == "stats-port-all":
     got = dict((p["port_no"], p["tx_packets"]) for p in r["ports"])
     if not r["wellformed"] or got != model.tx:
